@@ -574,15 +574,11 @@ Definition failinfo (c : ccase) : nat :=
         list_eqb art_kind_eqb (map a_kind (ob_written ob)) (kinds_for (c_cmd c));
         forallb (honoured_artifact (c_w c) (c_cfg c)) (ob_written ob); Nat.eqb (ob_stray ob) 0].
 Definition cases : list ccase := %(cases)s.
-Definition disagree := Eval vm_compute in map cid (filter (fun c => negb (agrees c)) cases).
-Definition propfail := Eval vm_compute in map cid (filter (fun c => negb (holds c)) cases).
 Definition diffs := Eval vm_compute in flat_map (fun c => if agrees c then [] else [cid c; diffinfo c]) cases.
 Definition fails := Eval vm_compute in flat_map (fun c => if holds c then [] else [cid c; failinfo c]) cases.
 Definition badcount := Eval vm_compute in
   [List.length (filter (fun c => violatesb orc declared_schema (c_cfg c)) cases);
    List.length (filter (fun c => negb (cross_ok (c_cfg c))) cases)].
-Print disagree.
-Print propfail.
 Print diffs.
 Print fails.
 Print badcount.
@@ -645,7 +641,7 @@ def lib_cases(rng, tier):
         for mask in range(1 << n):
             subsets.add(closed_subset([OPT_NAMES[i] for i in range(n) if mask >> i & 1]))
     else:
-        for _ in range(700):
+        for _ in range(250):
             subsets.add(closed_subset([x for x in OPT_NAMES if rng.random() < 0.5]))
     for sset in sorted(subsets, key=lambda x: sorted(x)):
         c = config_with(sset)
@@ -1036,7 +1032,7 @@ def run_cli(cases, cli, templates, oracle, tag="cli"):
     obs = [observe_cli(c, r, goinfo) for c, r in zip(cases, runs)]
     oracle.ensure([c["cfg"] for c in cases])
     disagree, propfail, diffs, fails, bad = [], [], {}, {}, [0, 0]
-    SH = 60
+    SH = 200
     for lo in range(0, len(cases), SH):
         idx = range(lo, min(lo + SH, len(cases)))
         INTERN.reset()
@@ -1045,11 +1041,11 @@ def run_cli(cases, cli, templates, oracle, tag="cli"):
         otext = oracle.coq()
         body = CASE_HEADER % dict(otable=otext, files=files, defs=INTERN.defs()) + CLI_EVAL % dict(cases=ctext)
         out = run_coq_file(PROP, "%s_%d" % (tag, lo), body)
-        disagree += parse_nat_list(out, "disagree")
-        propfail += parse_nat_list(out, "propfail")
         dl, fl = parse_nat_list(out, "diffs"), parse_nat_list(out, "fails")
         diffs.update(dict(zip(dl[0::2], dl[1::2])))
         fails.update(dict(zip(fl[0::2], fl[1::2])))
+        disagree += dl[0::2]
+        propfail += fl[0::2]
         b = parse_nat_list(out, "badcount")
         bad = [bad[0] + b[0], bad[1] + b[1]]
     return runs, obs, disagree, propfail, diffs, fails, bad
@@ -1169,7 +1165,7 @@ def main():
         f_ = finding_for(known, cls, {"cross_field_malformed": True, "violates_declared": False}) if cls.startswith("xfield:") else None
         if f_:
             known_hits[f_["id"]] = known_hits.get(f_["id"], 0) + 1
-            res.known(f_, "LoadGleeceConfig accepts %s" % cls)
+            res.known(f_, "cmd.LoadGleeceConfig accepts a security scheme that is malformed across fields")
         else:
             lib_viol.append(i)
 
@@ -1227,7 +1223,8 @@ def main():
         f_ = finding_for(known, ccases[i]["cls"], fb)
         if f_:
             known_hits[f_["id"]] = known_hits.get(f_["id"], 0) + 1
-            res.known(f_, ccases[i]["cls"])
+            res.known(f_, "the CLI refuses it only after source analysis (spec-and-routes has written the routes file by then)"
+                      if ccases[i]["cls"].startswith("xfield:") else ccases[i]["cls"])
             continue
         if reported < 3:
             small = shrink_cli(ccases[i])
@@ -1301,7 +1298,7 @@ def main():
         "evaluations": len(lcases) + len(ccases),
         "distinct_nontrivial": distinct,
         "rule": "library layer: cmd.LoadGleeceConfig on every containment-closed subset of the 14 optional parts (thorough: all; "
-                "quick: each alone, all-but-one, 700 random), every single-field corruption class x values x {maximal, minimal} "
+                "quick: each alone, all-but-one, 250 random), every single-field corruption class x values x {maximal, minimal} "
                 "base, random double corruptions, cross-field malformed schemes; CLI layer: the real binary in scratch projects "
                 "(5 engines x 2 versions, permission strings x fresh/existing output x umask, the three commands, glob sets with "
                 "decoy controllers, output paths, corruptions on a project whose sources do not parse). distinct = distinct "
